@@ -20,7 +20,7 @@ from rv.synth import Synth
 
 PROPERTY = "C06"
 LEVEL = "exploration"
-BUDGET_S = {"quick": 75, "thorough": 3600}
+BUDGET_S = {"quick": 150, "thorough": 3600}
 RULE = (
     "one evaluation = one history on one file: load, then 2-4 cycles of (1-4 edits of catalogue slots of the LOADED "
     "object: project fields, common module fields, any controller, any option, MIDI bindings, type-specific payload incl. "
@@ -271,10 +271,10 @@ def generate(seed, i, tier="quick", spec=None):
 def plan(tier, seed):
     units = []
     specs = base_specs(tier, seed)
-    per_file = 30 if tier == "quick" else 400
+    per_file = 40 if tier == "quick" else 400
     for j, spec in enumerate(specs):
         rich = spec["src"] == "fixture" and any(x in spec["name"] for x in ("sampler", "metamodule", "multi", "spectra", "analog", "fmx", "generator", "waveshaper", "vorbis"))
-        units.append({"kind": "file", "file": spec, "seed": seed, "first": j * 100000, "count": per_file * (4 if rich else 1), "tier": tier})
+        units.append({"kind": "file", "file": spec, "seed": seed, "first": j * 100000, "count": per_file * ((8 if tier == "quick" else 4) if rich else (2 if spec.get("nest") else 1)), "tier": tier})
     return units
 
 
